@@ -92,7 +92,9 @@ def gen_ctpls(ch: Ch) -> List[Dict[str, Any]]:
         if t == n - 1 and n > 1 and not any(s["k"] in ("ref", "argm") for s in slots):
             slots.append({"k": "ref", "name": "r", "dflt": None})
         ct = {"name": names[t], "slots": slots, "var": ch.chance(1, 6),
-              "exe": {"dflt": ch.pick(EXES) if ch.chance(1, 2) else None} if ch.chance(1, 5) else None}
+              "exe": {"dflt": ch.pick(EXES) if ch.chance(1, 2) else None} if ch.chance(1, 5) else None,
+              # an environment written inline whose values refer to parameters (the instance's own tag among them)
+              "env": ch.chance(1, 5)}
         out.append(ct)
     return out
 
@@ -632,6 +634,8 @@ class Folder:
                              "arguments": M.args_pattern(ct)}}
             if ct["var"]:
                 c["variables"] = {M.VAR_NAME: M.VAR_VALUE}
+            if ct.get("env"):
+                c["command"]["environment"] = M.env_pattern(ct)
             comps.append(c)
         wfs = []
         for wt in self.wts:
